@@ -500,7 +500,9 @@ func vf25Run(c *vf25Case) (class string, viol string, info string) {
 			d.curTag, d.opStartSent = i, len(d.sent)
 			n, err := d.w.Write(msg)
 			d.curTag = -1
-			d.sent = append(d.sent, msg[:n]...)
+			if n >= 0 && n <= len(msg) {
+				d.sent = append(d.sent, msg[:n]...)
+			}
 			if err != nil || n != len(msg) {
 				return "error", fmt.Sprintf("op %d: Write(%d bytes) on %s returned (%d, %v)", i, len(msg), d.name, n, err), ""
 			}
